@@ -253,13 +253,17 @@ TEXTS = {
     "mix": "é \U0001F600\u0085\n",
 }
 
-LINE_KINDS = ["resp", "err", "notif", "req", "junkNotJson", "junkScalar", "junkObject", "junkBoth", "junkArrayScalar", "blank", "junkWrongVersion", "junkNoVersion"]
-WF = {"resp", "err", "notif", "req"}
+LINE_KINDS = ["shortNotif", "junkLead", "resp", "err", "notif", "req", "junkNotJson", "junkScalar", "junkObject", "junkBoth", "junkArrayScalar", "blank", "junkWrongVersion", "junkNoVersion"]
+WF = {"resp", "err", "notif", "req", "shortNotif"}
 
 
 def line_text(kind, n, text):
     """the text of one line (without terminator) and its abstract description"""
     t = TEXTS[text]
+    if kind == "shortNotif":
+        return json.dumps({"jsonrpc": "2.0", "method": "n", "params": {"marker": n}}, separators=(",", ":"))
+    if kind == "junkLead":
+        return {"ascii": "x!", "b2": "é!", "b3": "€!", "b4": "\U0001F600!", "nel": "\u0085é", "esc": "é{", "mix": "é\U0001F600"}[text]     # starts with a multi-byte character
     if kind == "resp":
         o = {"jsonrpc": "2.0", "id": "r%d" % n, "result": {"marker": n, "t": t}}
     elif kind == "err":
@@ -298,7 +302,7 @@ def build_stream(lines, tail=None):
         data += b"\r\n" if term == "CRLF" else b"\n"
         ends.append(len(data))
         wf.append(kind in WF)
-        notif.append(kind == "notif")
+        notif.append(kind in ("notif", "shortNotif"))
         kinds.append(kind)
     if tail:
         data += line_text(tail[0], len(lines) + 1, tail[1]).encode("utf-8")     # unterminated: not a line
@@ -469,7 +473,14 @@ def run_out(cases, seed=0):
                         if exp is not None:
                             expected[n] = exp
                         evs.append({"e": "Accept", "shape": st["shape"]})
-                        await client._outgoing_send.send(item)
+                        if st.get("idle", True):
+                            await client._outgoing_send.send(item)
+                        else:
+                            # burst: queue without letting the writer task run in between
+                            try:
+                                client._outgoing_send.send_nowait(item)
+                            except anyio.WouldBlock:
+                                await client._outgoing_send.send(item)
                     elif st["op"] == "CloseWrite":
                         evs.append({"e": "CloseWrite"})
                         await client._outgoing_send.aclose()
